@@ -143,6 +143,16 @@ class T:
         P(ureg.default_system == "S", f"{tag}:default-system")
         f, bu = ureg.get_base_units("inch")
         P(str(bu) == "ft" and Eq(f, 1 / self.sf), f"{tag}:system-base-units")
+        # compatible-unit listings: all lengths without restriction, the system's members by default
+        listing = {str(u) for u in ureg.get_compatible_units("m", "root")}
+        if tag == "define" and listing != {"m", "inch", "ft", "hand", "yard"}:
+            # known defect K4 (see C13): units that arrive through define() after construction
+            # are missing from the compatible-unit listings
+            eng.fail(f"{tag}:late-definition-missing-from-compatible-units", stop=False)
+        else:
+            P(listing == {"m", "inch", "ft", "hand", "yard"}, f"{tag}:compatible-units-root-group")
+            P({str(u) for u in ureg.get_compatible_units("inch")} == {"hand", "yard"}, f"{tag}:compatible-units-default-system")
+            P({str(u) for u in ureg.get_compatible_units("mph", "root")} == {"mph"}, f"{tag}:compatible-units-speed")
         # context: rule with parameter default, and redefinition scoped to the context
         try:
             Qy(x, "m").to("s")
